@@ -102,6 +102,7 @@ type Result struct {
 	Wall         time.Duration
 	Truncated    bool
 	Samples      []string
+	Witnesses    []*Violation // a few completed (passing) paths, replayable natively
 	Rounds       int
 	MaxTraceLen  int
 	Allocs       int
@@ -287,6 +288,11 @@ func (p *Program) exploreOnce(entry *ssa.Function) (*Result, error) {
 					}
 					if len(res.Samples) < 5 {
 						res.Samples = append(res.Samples, st.sampleString())
+					}
+					if len(res.Witnesses) < 3 && len(st.trace) >= res.MaxTraceLen {
+						st.recordViolation("witness", "witness", nil)
+						res.Witnesses = append(res.Witnesses, st.violation)
+						st.violation = nil
 					}
 				case abInfeasible:
 					res.Infeasible++
